@@ -82,6 +82,8 @@ def PNetClass():
 
 def mk(polys, eq_type, **kw):
     """PINN whose outputs are the given polynomials of its (concatenated) input"""
+    from common import relax
+    relax(60)          # long runs of distinct small networks: keep the number of live compiled functions bounded
     jax, jnp, np, eqx, jinns = jx()
     mlp = PNetClass()(tuple(tuple(sorted(p.items())) for p in polys), jnp.ones(()))
     return jinns.utils.PINN(mlp=mlp, slice_solution=kw.pop("slice_solution", jnp.s_[:]), eq_type=eq_type,
